@@ -193,6 +193,11 @@ def _mutate(kind, obj, op):
             la = lls[op[1] % len(lls)]
             if kind == "scenario":
                 obj.remove_lanelet(la)
+            elif len(op) > 3 and op[3] == "lazy_flush":
+                # the batch idiom: the removal defers the index (rtree=False), a last call - here for an id that is not
+                # in the network any more - rebuilds it
+                obj.remove_lanelet(la.lanelet_id, rtree=False)
+                obj.remove_lanelet(la.lanelet_id, rtree=True)
             else:
                 obj.remove_lanelet(la.lanelet_id)
     elif name == "add_from_net":
@@ -497,7 +502,8 @@ def g_mutator(rng, kind, obj):
     ms = [g_tr(rng), g_tr(rng), g_tr(rng), ["add_lanelet", s], ["remove_lanelet", rng.randint(0, 20), rng.random() < 0.3],
           ["set_offset", rng.randint(0, 9), rng.randint(0, 5)], ["set_elems", s, rng.randint(0, 5)]]
     if kind == "net":
-        ms += [["add_from_net", s, rng.randint(1, 3), rng.random() < 0.4]]
+        ms += [["add_from_net", s, rng.randint(1, 3), rng.random() < 0.4],
+               ["remove_lanelet", rng.randint(0, 20), False, "lazy_flush"]]
     else:
         ms += [["obst_tr"] + g_tr(rng)[1:] + [rng.randint(0, 5)]]
     return rng.choice(ms)
@@ -537,8 +543,10 @@ def gen_case(rng, kind=None):
         ops.append(m)
         if mutate(kind, obj, m) is STOP:
             return gen_case(rng, kind)
+    asked = [op for op in ops if is_query(op)]
     for _ in range(rng.randint(1, 4)):
-        ops.append(g_query(rng, kind, obj))
+        # ask again what was asked before the mutators (whatever remembered that answer is now on the spot)
+        ops.append(copy.deepcopy(rng.choice(asked)) if asked and rng.random() < 0.6 else g_query(rng, kind, obj))
     return {"kind": kind, "seed": seed, "ops": ops[:12] if is_query(ops[:12][-1]) else ops[:11] + [ops[-1]]}
 
 
@@ -712,6 +720,7 @@ def _net_op(kind, obj, op, tk):
         return f"(NAdd TokW ({qz(new_lanelet(net, op[1]).lanelet_id)}, {tk.new()}) true)"
     if name == "remove_lanelet":
         lls = net.lanelets
+        # "lazy_flush" (deferred removal + flushing call) has the same net effect as the eager removal: same model op
         return f"(NRemove TokW {qz(lls[op[1] % len(lls)].lanelet_id)} true)" if may_remove(lls, op) else None
     if name == "add_from_net":
         ids = []
